@@ -36,14 +36,23 @@ func dwell(rng *hx.Rng) {
 	}
 }
 
+// recoverStress turns a panic of the code under test inside a stress goroutine into an oracle failure.
+func recoverStress(r *hx.Run, what string) {
+	if e := recover(); e != nil {
+		r.Fail("unexpected-panic", fmt.Sprintf("%s panicked under correct use in the stress run: %v", what, e),
+			sig("api", what, "oracle", "stress-panic"))
+	}
+}
+
 func waitOrStall(r *hx.Run, wg *sync.WaitGroup, what string) bool {
 	done := make(chan struct{})
 	go func() { wg.Wait(); close(done) }()
 	select {
 	case <-done:
 		return true
-	case <-time.After(60 * time.Second):
-		r.Fail("stall", what+": goroutines did not finish within 60s (lost wake-up or deadlock)", sig("api", what, "oracle", "stress-stall"))
+	case <-time.After(20 * time.Second):
+		stalls.Add(2)
+		r.Fail("stall", what+": goroutines did not finish within 20s (lost wake-up or deadlock)", sig("api", what, "oracle", "stress-stall"))
 
 		return false
 	}
@@ -77,6 +86,7 @@ func stressSM(r *hx.Run, rng *hx.Rng, sub uint64, g, iters, writePct int) {
 		grng, _ := rng.Fork()
 		go func(i int) {
 			defer wg.Done()
+			defer recoverStress(r, "StarvingMutex")
 			for k := 0; k < iters; k++ {
 				if grng.Intn(100) < writePct {
 					mu.Lock()
@@ -128,6 +138,7 @@ func stressDag(r *hx.Run, rng *hx.Rng, sub uint64, g, iters, nEnt int) {
 		grng, _ := rng.Fork()
 		go func(i int) {
 			defer wg.Done()
+			defer recoverStress(r, "DAGMutex")
 			for k := 0; k < iters; k++ {
 				// a vertex x and a subset of its "parents" (larger numbers): acquisitions follow the order
 				x := grng.Intn(nEnt)
